@@ -1,18 +1,90 @@
 //go:build verif
 
 // Add-only verification hook, injected into package models with `go build -overlay`.
+//
+// The hook reads unexported state.  It finds the fields it needs BY TYPE (reflection), not by name, so that a rename of
+// a private field does not break every check: each struct has exactly one field of each type the hook looks for
+// (VerifSelfTest checks that; the harnesses call it first and report an unfit hook as a broken tie).  All reads happen
+// at quiescence (the handler-level and lock-granularity harnesses are single-stepped), so no lock is taken.
 package models
 
-import "github.com/aukilabs/hagall-common/messages/hagallpb"
+import (
+	"fmt"
+	"reflect"
+	"time"
+	"unsafe"
+
+	"github.com/aukilabs/hagall-common/messages/hagallpb"
+)
+
+// verifField: the unique field of struct *ptr whose type is that of sample
+func verifField(ptr any, sample any) (reflect.Value, error) {
+	v := reflect.ValueOf(ptr).Elem()
+	want := reflect.TypeOf(sample)
+	n := 0
+	var found reflect.Value
+	for i := 0; i < v.NumField(); i++ {
+		if v.Field(i).Type() == want {
+			found = v.Field(i)
+			n++
+		}
+	}
+	if n != 1 {
+		return reflect.Value{}, fmt.Errorf("verif hook: %d fields of type %v in %T (expected exactly one)", n, want, ptr)
+	}
+	return reflect.NewAt(found.Type(), unsafe.Pointer(found.UnsafeAddr())).Elem(), nil
+}
+
+func verifMust(ptr any, sample any) reflect.Value {
+	v, err := verifField(ptr, sample)
+	if err != nil {
+		panic(err)
+	}
+	return v
+}
+
+func (s *Session) verifParticipants() map[uint32]*Participant {
+	return verifMust(s, map[uint32]*Participant{}).Interface().(map[uint32]*Participant)
+}
+func (s *Session) verifEntities() map[uint32]*Entity {
+	return verifMust(s, map[uint32]*Entity{}).Interface().(map[uint32]*Entity)
+}
+func (s *Session) verifFrameHandlers() map[uint32]func() {
+	return verifMust(s, map[uint32]func(){}).Interface().(map[uint32]func())
+}
+func (s *SessionStore) verifSessions() map[string]*Session {
+	return verifMust(s, map[string]*Session{}).Interface().(map[string]*Session)
+}
+
+// VerifSelfTest: do the structs still have exactly one field of every type the hooks look for?
+func VerifSelfTest() (err error) {
+	defer func() {
+		if r := recover(); r != nil {
+			err = fmt.Errorf("%v", r)
+		}
+	}()
+	s := NewSession(1, time.Hour)
+	s.verifParticipants()
+	s.verifEntities()
+	s.verifFrameHandlers()
+	st := &SessionStore{}
+	st.verifSessions()
+	st.VerifIDs()
+	ec := s.GetEntityComponents()
+	for _, sample := range []any{map[uint32]string{}, map[string]uint32{}, map[uint32]map[uint32]*hagallpb.EntityComponent{}, map[uint32]map[uint32]struct{}{}} {
+		if _, e := verifField(ec, sample); e != nil {
+			return e
+		}
+	}
+	return nil
+}
 
 // VerifDispatchFrame runs one frame of the session's worker (the loop body of
 // StartDispatchFrames) synchronously.
 func (s *Session) VerifDispatchFrame() {
-	s.frameMutex.RLock()
-	for _, h := range s.frameHandlers {
+	for _, h := range s.verifFrameHandlers() {
 		h()
 	}
-	s.frameMutex.RUnlock()
 }
 
 type VerifSessionDump struct {
@@ -28,20 +100,16 @@ type VerifSessionDump struct {
 }
 
 func (s *SessionStore) VerifKeys() []string {
-	s.mutex.RLock()
-	defer s.mutex.RUnlock()
 	var keys []string
-	for k := range s.sessions {
+	for k := range s.verifSessions() {
 		keys = append(keys, k)
 	}
 	return keys
 }
 
 func (s *SessionStore) VerifSessions() map[string]*Session {
-	s.mutex.RLock()
-	defer s.mutex.RUnlock()
 	out := map[string]*Session{}
-	for k, v := range s.sessions {
+	for k, v := range s.verifSessions() {
 		out[k] = v
 	}
 	return out
@@ -49,39 +117,29 @@ func (s *SessionStore) VerifSessions() map[string]*Session {
 
 func (s *Session) VerifDump() VerifSessionDump {
 	d := VerifSessionDump{ID: s.ID, UUID: s.SessionUUID, Types: map[uint32]string{}, TypeIDs: map[string]uint32{}, Subs: map[uint32][]uint32{}}
-	s.participantMutex.RLock()
-	for id := range s.participants {
+	for id := range s.verifParticipants() {
 		d.Participants = append(d.Participants, id)
 	}
-	s.participantMutex.RUnlock()
-	s.entityMutex.RLock()
-	for _, e := range s.entities {
+	for _, e := range s.verifEntities() {
 		d.Entities = append(d.Entities, e)
 	}
-	s.entityMutex.RUnlock()
-	s.frameMutex.RLock()
-	d.Frames = len(s.frameHandlers)
-	s.frameMutex.RUnlock()
-	ec := s.entityComponents
-	ec.mutex.RLock()
-	for id, n := range ec.nameIndex {
+	d.Frames = len(s.verifFrameHandlers())
+	ec := s.GetEntityComponents()
+	for id, n := range verifMust(ec, map[uint32]string{}).Interface().(map[uint32]string) {
 		d.Types[id] = n
 	}
-	for n, id := range ec.idIndex {
+	for n, id := range verifMust(ec, map[string]uint32{}).Interface().(map[string]uint32) {
 		d.TypeIDs[n] = id
 	}
-	for _, m := range ec.entityComponents {
+	for _, m := range verifMust(ec, map[uint32]map[uint32]*hagallpb.EntityComponent{}).Interface().(map[uint32]map[uint32]*hagallpb.EntityComponent) {
 		for _, c := range m {
 			d.Components = append(d.Components, c)
 		}
 	}
-	ec.mutex.RUnlock()
-	ec.subscriptionMutex.RLock()
-	for t, m := range ec.subscriptions {
+	for t, m := range verifMust(ec, map[uint32]map[uint32]struct{}{}).Interface().(map[uint32]map[uint32]struct{}) {
 		for p := range m {
 			d.Subs[t] = append(d.Subs[t], p)
 		}
 	}
-	ec.subscriptionMutex.RUnlock()
 	return d
 }
